@@ -27,6 +27,8 @@ def sig_of(case, what):
 
 
 def harness_problem(o):
+    if o.get('WF') == '0':
+        return 'WF=0 (the parser model built a tree outside the well-formedness the theorems assume)'
     for k in ('ORACLE_MISS', 'DRIVER_ERROR', 'RUNNER_ERROR'):
         if k in o:
             return '%s=%s' % (k, o[k])
@@ -112,7 +114,7 @@ class EvalProp(Prop):
         return 60000
 
     def run(self, ctx, res, budget_scale=1, seed_offset=0):
-        g = gens.G(ctx.seed * 7919 + seed_offset + hash(self.id) % 1000)
+        g = gens.G(ctx.seed * 7919 + seed_offset + sum(map(ord, self.id)))
         cases = []
         if seed_offset == 0:
             cases += load_corpus(self.id, ctx.root)
@@ -1923,6 +1925,22 @@ class C20(EvalProp):
 
     def cases(self, ctx, g, n):
         cs = mk_eval_cases(g, n, 'c', funcs=0.3, acc=0.1, jnum=0.1, opaque=0.3, filter_heavy=0.6)
+        # reflect.DeepEqual answers true for the SAME map/slice object even when it holds a value that is not
+        # equal to itself (func, NaN); the model compares structurally and has no object identity.  Paths that
+        # compare two paths therefore get documents without such leaves (DESIGN Appendix B).
+        nonself = {k for k, (_, _, se) in core.KINDS.items() if not se}
+
+        def scrub(d):
+            if d[0] == 'x' and d[1] in nonself:
+                return ('x', 'struct')
+            if d[0] == 'a':
+                return ('a', [scrub(x) for x in d[1]])
+            if d[0] == 'o':
+                return ('o', [(k, scrub(v)) for k, v in d[1]])
+            return d
+        for c in cs:
+            if b'==' in c.path or b'!=' in c.path:
+                c.docs = [scrub(d) for d in c.docs]
         return cs
 
     def project(self, o, c):
